@@ -35,6 +35,11 @@ def depth(tier):
     return 5 if tier == "quick" else 7
 
 
+def trace_variant(desc, tier):
+    """Every task is run a second time with trace logging enabled (enableTrace(True) is a process-wide configuration)."""
+    return True
+
+
 def tasks(tier, seed):
     ts = []
     for b0lo in range(0, 256, 32):
